@@ -1,5 +1,5 @@
 #!/bin/bash
-# wave_queue.sh — background worker: reads lines "<ID> <name>" appended to /tmp/wave_queue, confirms each seeded change
+# wave_queue.sh — background worker: reads lines "<ID> <name> [source dir]" appended to /tmp/wave_queue, confirms each seeded change
 # (tools/confirm_seeded.sh) and then runs the property's quick check against the patched worktree from the clone in /tmp/vm.
 # Results are appended to /tmp/wave_results. Stop with: touch /tmp/wave_stop
 Q=/tmp/wave_queue; R=/tmp/wave_results; DONE=/tmp/wave_done
@@ -7,10 +7,10 @@ touch $Q $R $DONE
 while [ ! -e /tmp/wave_stop ]; do
   LINE=$(grep -vxFf $DONE $Q | head -1)
   if [ -z "$LINE" ]; then sleep 20; continue; fi
-  set -- $LINE; ID=$1; NAME=$2
+  set -- $LINE; ID=$1; NAME=$2; SRC=${3:-/tmp/mut4/$ID}
   echo "== $(date +%H:%M:%S) $ID $NAME" >> $R
   if [ ! -d /verif/seeded/$NAME ]; then
-    /verif/tools/confirm_seeded.sh /tmp/mut4/$ID $NAME 2>&1 | tail -2 >> $R
+    /verif/tools/confirm_seeded.sh $SRC $NAME 2>&1 | tail -2 >> $R
   fi
   if [ -d /verif/seeded/$NAME ]; then
     while [ ! -e /tmp/vm/setup.out ] || ! grep -q '^done' /tmp/vm/setup.out; do sleep 10; done
